@@ -702,6 +702,12 @@ where
                 res
             };
 
+            // The entry may have been deleted or superseded while it was being read from the device.
+            // Do not hand out (and let the caller re-populate memory with) a value that is no longer indexed.
+            if indexer.get(hash).map(|latest| latest.sequence) != Some(addr.sequence) {
+                return Ok(Load::Miss);
+            }
+
             let age = match block.statistics().probation.load(Ordering::Relaxed) {
                 true => Age::Old,
                 false => Age::Young,
